@@ -673,6 +673,15 @@ def batch_boundary(cfg):
         cfg.ext_methods[base + "::operator unsigned long"] = lambda em, recv, args, n: recv
         cfg.ext_methods[base + "::operator __int_type"] = lambda em, recv, args, n: recv
         cfg.ext_methods[base + "::operator bool"] = lambda em, recv, args, n: recv
+        # read-modify-write operations of one call executed alone (sequential semantics of the function under contract)
+        cfg.ext_methods[base + "::store"] = lambda em, recv, args, n: "%s = %s" % (recv, em.expr(args[0]))
+        cfg.ext_methods[base + "::exchange"] = lambda em, recv, args, n: "XC_EXCHANGE(%s, %s)" % (recv, em.expr(args[0]))
+        cfg.ext_methods[base + "::fetch_add"] = lambda em, recv, args, n: "XC_FETCH_ADD(%s, %s)" % (recv, em.expr(args[0]))
+    cfg.ext_methods["std::thread::joinable"] = lambda em, recv, args, n: "xc_thread_joinable()"
+    cfg.ext_methods["std::thread::join"] = lambda em, recv, args, n: "xc_thread_join()"
+    for k in ("std::condition_variable::notify_all", "std::condition_variable::notify_one"):
+        cfg.ext_methods[k] = lambda em, recv, args, n: "xc_cv_notify()"
+    cfg.drop_types = getattr(cfg, "drop_types", set()) | {"std::lock_guard", "std::unique_lock"}
 
 
 # ---------------------------------------------------------------------------------------------
@@ -841,3 +850,49 @@ def strbuild_boundary(cfg):
         cfg.seq_handlers = {}
     cfg.seq_handlers["nostd::string_view"] = lambda em, seq, targs: ("(%s).data_" % seq, "(%s).length_" % seq)
     cfg.seq_handlers["string_view"] = cfg.seq_handlers["nostd::string_view"]
+
+
+# ---------------------------------------------------------------------------------------------
+# std::unordered_map boundary (assumed contract = the C++ standard): the map is seen through ONE ghost slot, the slot of the key
+# the operation under contract writes; whether that key is already present on entry is arbitrary
+UMAP_C = r"""
+typedef struct xc_umap { char xc_unused; } xc_umap;
+typedef struct xc_key { unsigned long id; } xc_key;
+int g_slot_present;            /* is the key present in the map */
+XC_UMAP_VAL g_slot_val;        /* its mapped value */
+unsigned long g_slot_key;      /* the key of the last map operation */
+unsigned long g_umap_ops;      /* number of map operations */
+/* operator[](key): reference to the mapped value, value-initialised first if the key is absent */
+static XC_UMAP_VAL *xc_umap_index(xc_umap *m, xc_key key)
+{
+  g_umap_ops++; g_slot_key = key.id;
+  if (!g_slot_present) { g_slot_present = 1; g_slot_val = (XC_UMAP_VAL)XC_UMAP_ZERO; }
+  return &g_slot_val;
+}
+/* emplace(key, value) / insert({key, value}): inserts only if the key is absent */
+static void xc_umap_emplace(xc_umap *m, xc_key key, XC_UMAP_VAL v)
+{
+  g_umap_ops++; g_slot_key = key.id;
+  if (!g_slot_present) { g_slot_present = 1; g_slot_val = v; }
+}
+/* insert_or_assign(key, value) */
+static void xc_umap_insert_or_assign(xc_umap *m, xc_key key, XC_UMAP_VAL v)
+{
+  g_umap_ops++; g_slot_key = key.id; g_slot_present = 1; g_slot_val = v;
+}
+"""
+
+
+def _umap_type(em, base, targs, name):
+    if base == "std::unordered_map":
+        return CT("xc_umap")
+    return None
+
+
+def umap_boundary(cfg, key_ctor):
+    """key_ctor(em, key_arg_node) -> C expression of type xc_key for the key argument of a map operation"""
+    cfg.type_handlers.insert(0, _umap_type)
+    cfg.ext_methods["std::unordered_map::operator[]"] = lambda em, recv, args, n: "(*xc_umap_index(&(%s), %s))" % (recv, key_ctor(em, args[0]))
+    cfg.ext_methods["std::unordered_map::emplace"] = lambda em, recv, args, n: "xc_umap_emplace(&(%s), %s, %s)" % (recv, key_ctor(em, args[0]), em.expr(args[1]))
+    cfg.ext_methods["std::unordered_map::try_emplace"] = cfg.ext_methods["std::unordered_map::emplace"]
+    cfg.ext_methods["std::unordered_map::insert_or_assign"] = lambda em, recv, args, n: "xc_umap_insert_or_assign(&(%s), %s, %s)" % (recv, key_ctor(em, args[0]), em.expr(args[1]))
